@@ -179,6 +179,7 @@ type world struct {
 	inModel map[common.Hash]bool // hashes the model believes are cached
 	ever    map[common.Hash]string
 	big     bool
+	recent  []common.Address // accounts touched so far in the block being built
 	tainted bool // the cache holds leftovers of a failed commit: leaf callbacks on them are unobservable
 }
 
@@ -211,6 +212,10 @@ func (w *world) restart() {
 
 func (w *world) addr() common.Address {
 	rg := w.r.rng
+	if len(w.recent) > 0 && rg.Chance(2, 5) {
+		// an account already dirtied earlier in this block (re-set under snapshots)
+		return w.recent[rg.Intn(len(w.recent))]
+	}
 	if len(w.addrs) > 0 && !rg.Chance(1, 4) {
 		return w.addrs[rg.Intn(len(w.addrs))]
 	}
@@ -322,6 +327,9 @@ func (w *world) code() []byte {
 func (w *world) mutate(adb *account.AccountDB, touched map[common.Address]bool) {
 	rg := w.r.rng
 	a := w.addr()
+	if !touched[a] {
+		w.recent = append(w.recent, a)
+	}
 	touched[a] = true
 	switch rg.Intn(14) {
 	case 0, 1:
@@ -364,16 +372,40 @@ func (w *world) mutate(adb *account.AccountDB, touched map[common.Address]bool) 
 			w.r.step(fmt.Sprintf("SetData %x %x %x", a[:], k, v))
 		}
 	case 13:
-		id := adb.Snapshot()
-		k, v := w.key(a), w.value()
-		adb.SetData(a, k, v)
-		adb.SetNonce(a, uint64(rg.Intn(9)))
-		if rg.Bool() {
-			adb.RevertToSnapshot(id)
-			w.r.step(fmt.Sprintf("Snapshot;SetData %x %x %x;SetNonce;Revert", a[:], k, v))
+		c := w.code()
+		adb.SetCode(a, c)
+		w.codes[crypto.Keccak256Hash(c)] = true
+		n := uint64(rg.Intn(4))
+		adb.SetNonce(a, n)
+		w.r.step(fmt.Sprintf("SetCode %x len=%d;SetNonce %d", a[:], len(c), n))
+	}
+}
+
+// frame is one transaction / call frame as block execution produces them: a
+// snapshot, some mutations and nested frames, and — for a failed transaction
+// or a reverted inner call — RevertToSnapshot.  Reverts are partial (only the
+// frame's own effects) and nested to depth 3; accounts dirtied earlier in the
+// block are re-set inside frames that are later reverted.
+func (w *world) frame(adb *account.AccountDB, touched map[common.Address]bool, depth int, budget *int) {
+	rg := w.r.rng
+	id := adb.Snapshot()
+	w.r.step(fmt.Sprintf("%sSnapshot #%d {", strings.Repeat("  ", depth), id))
+	n := 1 + rg.Intn(5)
+	for i := 0; i < n && *budget > 0; i++ {
+		if depth < 3 && rg.Chance(1, 4) {
+			w.frame(adb, touched, depth+1, budget)
 		} else {
-			w.r.step(fmt.Sprintf("Snapshot;SetData %x %x %x;SetNonce", a[:], k, v))
+			*budget--
+			w.mutate(adb, touched)
 		}
+	}
+	if rg.Chance(2, 5) {
+		adb.RevertToSnapshot(id)
+		w.r.stats["reverted_frames"]++
+		w.r.step(fmt.Sprintf("%s} RevertToSnapshot #%d", strings.Repeat("  ", depth), id))
+	} else {
+		w.r.stats["kept_frames"]++
+		w.r.step(fmt.Sprintf("%s} keep #%d", strings.Repeat("  ", depth), id))
 	}
 }
 
@@ -750,8 +782,17 @@ func (w *world) block(p blockPlan) {
 		touched[tokenContract] = true
 		r.step("genesis: token contract + balance binding")
 	}
-	for i := 0; i < p.nmut; i++ {
-		if res := hx.Guard(func() string { w.mutate(adb, touched); return "" }); res != "" {
+	w.recent = nil
+	for budget := p.nmut; budget > 0; {
+		if res := hx.Guard(func() string {
+			if rg.Chance(3, 5) {
+				w.frame(adb, touched, 0, &budget) // a transaction, possibly failing
+			} else {
+				budget--
+				w.mutate(adb, touched)
+			}
+			return ""
+		}); res != "" {
 			// a panic inside a state accessor is not a C03 matter (C04/C11 own the
 			// accessors); it is counted and the history simply continues
 			r.stats["accessor_panics"]++
@@ -938,7 +979,7 @@ func (w *world) commitFrom(adb *account.AccountDB, touched map[common.Address]bo
 				known = true
 			}
 		}
-		if !known {
+		if !known && st.resolvable {
 			w.durable = append(w.durable, &rootRec{root: root, exp: exp, digest: st.digest})
 		}
 		if p.skipRead {
